@@ -1,4 +1,5 @@
 """C10: project splits the score along a selection."""
+import jax
 import jax.numpy as jnp
 from genjax import Selection as S
 
@@ -54,4 +55,38 @@ def obligations(tier, seed):
 
             obs.append(Ob(f"C10/project[{sn}]/{nm}", f, (gfi.KEY, P.args, P.example_vals()), assume=lambda k, a, v, A=A: A(a, v),
                           note="project(S) == sum of reference log-densities of the selected sites; project(S)+project(~S) == score"))
+    # ---- traces produced by edits: "for any trace": after an Update (changed args) and after a Regenerate the projections
+    # of the NEW trace are those of its own values and still add up to its own score
+    from genjax import Diff, Regenerate, Update
+
+    for nm in names:
+        P = cat[nm]()
+        if "project" not in P.supports:
+            continue
+        A = gfi.base_assume(P, in_range=False)
+        args2 = jax.tree_util.tree_map(lambda x: x + 0.25 if jnp.issubdtype(jnp.asarray(x).dtype, jnp.floating) else x, P.args)
+        cases = sel_cases(P, tier)
+        sn, sel, member = cases[2] if len(cases) > 2 else cases[0]
+        kinds = []
+        if "update" in P.supports and not any(k in nm for k in ("switch", "or_else", "mix")):
+            kinds.append("update")
+        if "regenerate" in P.supports:
+            kinds.append("regenerate")
+        for kind in kinds:
+            def g(key, key2, args, vals, vals2, args2, P=P, sel=sel, member=member, kind=kind):
+                tr, _ = P.gf.importance(key, P.chm(vals), args)
+                if kind == "update":
+                    tr2, *_ = Update(P.chm(vals2, subset=(0,))).edit(key2, tr, Diff.unknown_change(args2))
+                    new_args = args2
+                else:
+                    tr2, *_ = Regenerate(S.all()).edit(key2, tr, Diff.no_change(args))
+                    new_args = args
+                r = P.ref(new_args, gfi.trace_vals(P, tr2))
+                expect = sum((jnp.sum(t) for t, m in zip(r.terms, member) if m), jnp.float32(0.0))
+                w, wc = tr2.project(key, sel), tr2.project(key, ~sel)
+                return (w, w + wc, tr2.project(key, S.all()), tr2.project(key, S.none())), (expect, tr2.get_score(), tr2.get_score(), jnp.float32(0.0))
+
+            obs.append(Ob(f"C10/project-after-{kind}[{sn}]/{nm}", g, (gfi.KEY, jax.random.key(1), P.args, P.example_vals(), gfi.perturb_vals(P), args2),
+                          assume=lambda k, k2, a, v, v2, a2, A=A: A(a, v) + A(a2, v2),
+                          note="the trace returned by an edit: project(S) == reference terms at its own values, project(S)+project(~S) == project(all) == its score, project(none) == 0"))
     return obs
